@@ -30,6 +30,8 @@ fn cmd_for(kind: char, id: &str, probes: &Path) -> (String, Vec<String>, Option<
         'C' => (format!("{}; echo foo; (exit 3)", p), vec!["foo".into()], None),
         'S' => (format!("{}; (exit 80)", p), vec![], None),
         'T' => (format!("{}; sleep 1.5", p), vec![], Some("timeout: 300ms")),
+        // a shell that ignores SIGTERM: being aborted must not depend on its cooperation
+        'Z' => (format!("trap '' TERM; {}; sleep 1.5", p), vec![], Some("timeout: 300ms")),
         _ => unreachable!(),
     }
 }
@@ -73,7 +75,7 @@ fn gen_proc(r: &mut Rng, flag: char, quiet: bool) -> Proc {
                 0 | 1 => 'P',
                 2 => *r.pick(&['P', 'O', 'C']),
                 3 => *r.pick(&['P', 'S']),
-                4 => if !cram && !slow && r.chance(1, 3) { slow = true; 'T' } else { 'P' },
+                4 => if !cram && !slow && r.chance(1, 3) { slow = true; if r.chance(1, 2) { 'T' } else { 'Z' } } else { 'P' },
                 _ => *r.pick(&['P', 'O', 'C', 'S']),
             });
             if !quiet && !cram { let l = tests.len(); if tests[l - 1] == 'P' && r.chance(1, 4) { tests[l - 1] = 'V'; } }
@@ -158,7 +160,7 @@ pub fn run_case(r: &mut Rng, scrut: &str, base: &Path, bash: &str) -> String {
     for (mut ch, pdir, wd) in children { let st = ch.wait().expect("wait"); done.push((st, pdir, wd)); }
     // a command that ran into its timeout must have been aborted: were it still running, its shell would write its state
     // (and re-create the directories for it) when the command ends -- look only after that moment
-    if procs.iter().any(|p| p.docs.iter().any(|d| d.tests.contains(&'T'))) {
+    if procs.iter().any(|p| p.docs.iter().any(|d| d.tests.contains(&'T') || d.tests.contains(&'Z'))) {
         let until = std::time::Duration::from_millis(1900);
         if started.elapsed() < until { std::thread::sleep(until - started.elapsed()); }
     }
